@@ -681,6 +681,9 @@ func genStacks() ([]byte, error) {
                           and the server's proxy constructor
    stcp_visitor_events    what stcp visitor handleConn does to the visitor connection in source order: "arm:/clear:<SetXDeadline>",
                           prefixed "defer:" when inside a defer statement, "readmsg", "join"
+   xtcp_fallback          the xtcp visitor's fallback decision in handleConn: "enclosing:<cond>" of the block that contains the
+                          TransferConn call, then in source order "guard:<cond>" for every if statement of that block that returns
+                          before the transfer, and "transfer:<visitor name>,<connection>"
    muxer_handle_events    what vhost.Muxer.handle does to a connection, in SOURCE ORDER: "arm:<SetXDeadline>" /
                           "clear:<SetXDeadline>" (argument time.Time{}), "sniff" (v.vhostFunc), "failHook", "successHook",
                           "checkAuth", "handoff" (send on l.accept), "?..." anything else that touches the connection
@@ -1023,6 +1026,71 @@ Definition T5_translated : bool := true.
 		sveq = append(sveq, tx.CoqString(e))
 	}
 	strsOf("stcp_visitor_events", sveq)
+
+	// xtcp visitor: when is the user connection handed to the fallback visitor
+	var xfb []string
+	if c, err := ctxOf("client/visitor/xtcp.go", "handleConn"); err == nil {
+		hasTransfer := func(n ast.Node) *ast.CallExpr {
+			var res *ast.CallExpr
+			ast.Inspect(n, func(m ast.Node) bool {
+				if call, ok := m.(*ast.CallExpr); ok {
+					if sel, ok := call.Fun.(*ast.SelectorExpr); ok && sel.Sel.Name == "TransferConn" {
+						res = call
+					}
+				}
+				return true
+			})
+			return res
+		}
+		var search func(list []ast.Stmt, enclosing string) bool
+		search = func(list []ast.Stmt, enclosing string) bool {
+			for i, st := range list {
+				call := hasTransfer(st)
+				if call == nil {
+					continue
+				}
+				// descend if the call sits in a nested block of an if statement whose own header does not hold it
+				if ifs, ok := st.(*ast.IfStmt); ok && (ifs.Init == nil || hasTransfer(ifs.Init) == nil) && hasTransfer(ifs.Cond) == nil {
+					if search(ifs.Body.List, c.canon(ifs.Cond)) {
+						return true
+					}
+				}
+				xfb = append(xfb, "enclosing:"+enclosing)
+				for _, prev := range list[:i] {
+					if ifs, ok := prev.(*ast.IfStmt); ok {
+						returns := false
+						for _, b := range ifs.Body.List {
+							if _, ok := b.(*ast.ReturnStmt); ok {
+								returns = true
+							}
+						}
+						if returns {
+							xfb = append(xfb, "guard:"+c.canon(ifs.Cond))
+						} else {
+							xfb = append(xfb, "?if "+c.canon(ifs.Cond))
+						}
+					}
+				}
+				var args []string
+				for _, a := range call.Args {
+					args = append(args, c.canon(a))
+				}
+				xfb = append(xfb, "transfer:"+strings.Join(args, ","))
+				return true
+			}
+			return false
+		}
+		if !search(c.fd.Body.List, "") {
+			xfb = []string{"?no TransferConn call"}
+		}
+	} else {
+		xfb = []string{"?" + tx.Sanitize(err.Error())}
+	}
+	var xfbq []string
+	for _, e := range xfb {
+		xfbq = append(xfbq, tx.CoqString(e))
+	}
+	strsOf("xtcp_fallback", xfbq)
 
 	// vhost muxer: order of events on a connection
 	var mev []string
